@@ -272,11 +272,17 @@ class MultiFS(FS):
         self.check()
         seen = set()  # type: MutableSet[Text]
         exists = False
+        # the page is a slice of the merged listing, not of each member's listing
+        start, end = page if page is not None else (None, None)
+        start = start or 0
+        index = 0
         for _name, fs in self.iterate_fs():
             try:
-                for info in fs.scandir(path, namespaces=namespaces, page=page):
+                for info in fs.scandir(path, namespaces=namespaces):
                     if info.name not in seen:
-                        yield info
+                        if index >= start and (end is None or index < end):
+                            yield info
+                        index += 1
                         seen.add(info.name)
                 exists = True
             except errors.ResourceNotFound:
